@@ -433,8 +433,24 @@ package otp
 //@   ensures[period] u != nil && err == nil ==> (pd == "" ==> param.Period == 30) && (pd != "" ==> isint(pd) && param.Period == intval(pd))
 //@   ensures[algorithm] u != nil && err == nil ==> (al == "" ==> param.Algorithm == 0) && (al != "" ==> hashname(al) && param.Algorithm == hashof(al))
 
+//@ macro algname(a) = a == 0 ? "SHA1" : (a == 1 ? "SHA256" : (a == 2 ? "SHA512" : ""))
+//@ macro urlok(p) = p.Issuer != "" && p.AccountName != "" && p.Secret != ""
+//@ macro urlfields(r, kind, p) = r.Scheme == "otpauth" && r.Host == kind && r.Path == cat("/", p.Issuer, ":", p.AccountName) &&
+//@ |   qget(r.RawQuery, "secret") == p.Secret && qget(r.RawQuery, "issuer") == p.Issuer &&
+//@ |   qget(r.RawQuery, "algorithm") == algname(p.Algorithm) && qget(r.RawQuery, "digits") == dec(p.Digits == 0 ? 6 : p.Digits)
+
 //@ func otp.generateOTPURL(kind, param, extraParams) (r, err)
-//@   ensures[iff] err == nil <==> param.Issuer != "" && param.AccountName != "" && param.Secret != ""
+//@   requires !qhas(extraParams, "secret") && !qhas(extraParams, "issuer") && !qhas(extraParams, "algorithm") && !qhas(extraParams, "digits")
+//@   loop 1 invariant qval(query, "secret") == param.Secret && qval(query, "issuer") == param.Issuer &&
+//@ |   qval(query, "algorithm") == algname(param.Algorithm) && qval(query, "digits") == dec(param.Digits == 0 ? 6 : param.Digits)
+//@   ensures[iff] err == nil <==> urlok(param)
 //@   ensures[verdict] (err == nil && r != nil) || (err != nil && r == nil)
-//@   ensures[fields] err == nil ==> r.Scheme == "otpauth" && r.Host == kind && r.Path == cat("/", param.Issuer, ":", param.AccountName)
+//@   ensures[fields] err == nil ==> urlfields(r, kind, param)
 //@   ensures[fresh] err == nil ==> fresh(r)
+
+//@ func otp.GenerateHOTPURL(param) (r, err)
+//@   ensures[iff] err == nil <==> urlok(param)
+//@   ensures[fields] err == nil ==> urlfields(r, "hotp", param)
+//@ func otp.GenerateTOTPURL(param) (r, err)
+//@   ensures[iff] err == nil <==> urlok(param)
+//@   ensures[fields] err == nil ==> urlfields(r, "totp", param)
